@@ -10,6 +10,7 @@ CLANG_LOWER = ['clang++-14', '-O1', '-fno-vectorize', '-fno-slp-vectorize', '-fn
 CBMC_FLAGS = ['--unwinding-assertions', '--pointer-check', '--bounds-check', '--pointer-overflow-check',
               '--drop-unused-functions', '--no-malloc-may-fail' if False else '--malloc-may-fail']
 CBMC_FLAGS = ['--unwinding-assertions', '--pointer-overflow-check', '--drop-unused-functions', '--object-bits', '12']
+if os.environ.get('VF_PATHS'): CBMC_FLAGS += ['--paths', 'lifo']
 
 
 class VfError(Exception):
@@ -105,12 +106,12 @@ class Unit:
                     raise VfError('TRANSLATOR MISMATCH %s be%d harness %d inputs %s\n--- real\n%s\n--- gen\n%s' % (s.name, s.be, h, ins, oa, ob))
         return cnt
 
-    def cbmc(s, h, witness=False, timeout=120, unwind=6, extra=(), trace=True, mem_gb=12):
+    def cbmc(s, h, witness=False, timeout=120, unwind=6, extra=(), trace=True, mem_gb=16):
         inc = ['-I' + VERIF + '/harness', '-I' + VERIF + '/tools']
         cmd = ['cbmc', s.genc, s.hc, VERIF + '/harness/vf_harness.c', VERIF + '/tools/rt.c', '-DGEN', '--function', 'harness_p%d' % h,
                '--unwind', str(unwind)] + CBMC_FLAGS + inc + list(extra)
         if witness: cmd += ['-DWITNESS']
-        if trace and not witness: cmd += ['--trace']
+        if trace: cmd += ['--trace']
         rc, out, t = run(cmd, timeout=timeout, memlimit_gb=mem_gb)
         return parse_cbmc(rc, out, t)
 
@@ -131,8 +132,12 @@ def parse_cbmc(rc, out, t):
     if 'VERIFICATION SUCCESSFUL' in out: res['verdict'] = 'success'
     elif 'VERIFICATION FAILED' in out:
         res['verdict'] = 'failed'
-        ins = {}
-        for m in re.finditer(r'vf_inputs\[(\d+)l?\]=(\d+)', out):
-            ins[int(m.group(1))] = int(m.group(2))
-        res['inputs'] = [ins.get(i, 0) for i in range(16)]
+        traces = {}
+        parts = re.split(r'^Trace for ([^\n:]+):\s*$', out, flags=re.M)
+        for i in range(1, len(parts), 2):
+            ins = {}
+            for m in re.finditer(r'vf_inputs\[(\d+)l?\]=(\d+)', parts[i + 1]):
+                ins[int(m.group(1))] = int(m.group(2))
+            traces[parts[i].strip()] = [ins.get(k, 0) for k in range(16)]
+        res['traces'] = traces
     return res
